@@ -22,9 +22,15 @@ pub uninterp spec fn path_join(dir: &Path, name: &str) -> PathBuf;
 // state of the file system at the time of the call
 pub uninterp spec fn fs_can_open_read(p: PathBuf) -> bool;
 pub uninterp spec fn fs_can_open_write(p: PathBuf) -> bool;
+pub uninterp spec fn path_has_extension(p: &Path) -> bool;   // purely lexical property of the last component
+pub uninterp spec fn path_to_buf(p: &Path) -> PathBuf;
 impl Path {
     #[verifier::external_body]
     pub fn join(&self, name: &str) -> (r: PathBuf) ensures r == path_join(self, name) { unimplemented!() }
+    #[verifier::external_body]
+    pub fn extension(&self) -> (r: Option<&OsStr>) ensures r is Some == path_has_extension(self) { unimplemented!() }
+    #[verifier::external_body]
+    pub fn to_path_buf(&self) -> (r: PathBuf) ensures r == path_to_buf(self) { unimplemented!() }
 }
 impl PathBuf {
     #[verifier::external_body]
